@@ -1145,12 +1145,12 @@ def _prim_slots(tree, nodes):
         if _under_ftstr(tree, p):
             continue
         if k == 'Constant':
-            if _under_pattern(tree, p) or any(f == 'format_spec' for f, _ in p):
-                continue  # literal patterns have their own value rules (MatchValue / MatchSingleton)
+            if any(f == 'format_spec' for f, _ in p):
+                continue
             par = node_at(tree, p[:-1]) if p else None
-            pool = PRIM_CONST
-            if isinstance(par, ast.Attribute) or n.value is ...:
-                pool = ['q', '\u00fc', 'two words']  # `5.real` needs parentheses: left to the expression put path
+            pool = PRIM_CONST  # below a pattern many of these are refused (literal pattern rules): atomicity is judged then
+            if n.value is ...:
+                pool = ['q', '\u00fc', 'two words']
             if isinstance(par, ast.Expr) and isinstance(n.value, str):
                 continue  # docstring positions: put_docstr has its own events
             out.append((n, p, 'value', pool))
